@@ -128,6 +128,9 @@ def get_atomic_sequence(xsd_type: Optional[XsdTypeProtocol],
             if s.strip(' \t\n\r') not in ('true', 'false', '1', '0'):
                 raise ValueError(f'{s!r} is not a valid xs:boolean')
             return s.strip(' \t\n\r') in ('true', '1')
+        elif isinstance(value, Decimal):
+            # Decimal() also accepts 'NaN', 'Infinity', exponents and underscores
+            return dt.DecimalProxy.make(s)
         elif not isinstance(value, dt.AbstractQName):
             return value.__class__(s)
         else:
